@@ -170,4 +170,14 @@ def run(ctx):
             ok = True
     R.ob(ok, "WIRE", gb.where(), "WIRE|generate_block|parent", "parent hash is not get_block_hash(block_number - 1)",
          sample={"rule": "WIRE", "fn": "generate_block", "parent": "get_block_hash(block_number - 1)"})
+    # the chain/index tables the cross-references are read from follow the chain through reorg / clear_caches / commit
+    # (a table left out keeps rows of orphaned blocks: lookups no longer point at each other)
+    chain_tables = T.fields_touched(F, ["get_block", "get_raw_block_by_number", "get_block_number", "get_block_hash", "get_tx_by_hash", "get_tx_receipt",
+                                        "get_tx_hash_by_block_number_and_index", "get_tx_hash_by_block_hash_and_index", "get_tx_hash_by_inscription_id",
+                                        "get_inscription_id_by_contract_address", "get_block_tx_count"])
+    R.floor("chain_and_index_tables", len(chain_tables), 9)
+    for dm in ("reorg", "clear_caches", "commit_changes"):
+        T.clause_tables(R, F, dm, only_fields=chain_tables)
+    # lookups answer the same whether or not the rows were committed: cache before disk, unset shadows disk
+    T.clause_read_merge(R, F)
     return R
